@@ -138,8 +138,13 @@ func (rm *room) sigFault(ev gmsl.PDU, kind string, victim string) []byte {
 		return setSigs(raw, sigs)
 	default: // wrong key: same server name and key ID, another private key
 		var keyID gmsl.KeyID = "ed25519:k1"
+		var ks []string
 		for k := range sigs[victim] {
-			keyID = gmsl.KeyID(k)
+			ks = append(ks, k)
+		}
+		sort.Strings(ks)
+		if len(ks) > 0 {
+			keyID = gmsl.KeyID(ks[0])
 		}
 		if s := rm.ledger.Servers[spec.ServerName(victim)]; s != nil {
 			keyID = s.Current().ID
@@ -377,7 +382,7 @@ func cleanStack(st string) string {
 	var out []string
 	for _, ln := range strings.Split(st, "\n") {
 		switch {
-		case strings.HasPrefix(ln, "goroutine "), ln == "":
+		case strings.HasPrefix(ln, "goroutine "), strings.HasPrefix(ln, "created by "), ln == "":
 			continue
 		case strings.HasPrefix(ln, "\t"):
 			if i := strings.LastIndex(ln, " +0x"); i > 0 {
